@@ -193,7 +193,8 @@ def run(tier, seed, replay_file):
     def graph(name, cfg, kind, max_paths):
         """State graph with the constants of the compiled code, replayed edge by edge on the real tunnel."""
         gc = graph_config(k, cfg, kind, big)
-        g = run_tlc(gc, workers=per, edges=True, heap="6g")
+        # the thorough graphs have up to 830k edges; Python keeps the first 250k (breadth-first order), TLC still checks all
+        g = run_tlc(gc, workers=per, edges=True, heap="6g", edge_limit=250000 if big else None)
         if g.violation:
             raise vlib.Broken("the design violates %s in graph configuration %s" % (g.violation, name))
         gr = vlib.Graph(g)
@@ -281,7 +282,7 @@ def run(tier, seed, replay_file):
     jobs.append(("toy-s2c", design, ("toy-s2c", dict(toy, Writers='{"As"}', AllowSeg="TRUE", Depth=0, PSizes="{0,3}" if not big else toy["PSizes"]))))
     jobs.append(("leftover-cex", leftover_cex, ("leftover-cex", primary)))
     for kind in KINDS:
-        jobs.append((kind, graph, (kind, primary, kind, None if big else 900)))
+        jobs.append((kind, graph, (kind, primary, kind, 5000 if big else 900)))
     toy_relay = dict(toy, Two="TRUE", Paths='{"plain","t2t"}', PSizes="{0,3}", Pads="{0,1}", WSizes="{1,6,7}", RSizes="{1,7}")
     if not big:
         other = CONFIGS[(seed + 1 + seed // len(CONFIGS)) % len(CONFIGS)]
